@@ -2,3 +2,109 @@
 #![allow(clippy::all)]
 use super::*;
 use crate::verif_mocks::*;
+use crate::{storage::Spill, Location, MaxCut, SegmentIndex, StorageError};
+
+/// Array-backed `Spill` satisfying the trait contract "read_at returns what write_at stored".
+struct ArrSpill<const N: usize> {
+    data: [u8; N],
+}
+impl<const N: usize> Spill for ArrSpill<N> {
+    fn write_at(&mut self, offset: usize, d: &[u8]) -> Result<(), StorageError> {
+        if offset + d.len() > N {
+            return Err(StorageError::IoError);
+        }
+        self.data[offset..offset + d.len()].copy_from_slice(d);
+        Ok(())
+    }
+    fn read_at(&mut self, offset: usize, d: &mut [u8]) -> Result<(), StorageError> {
+        if offset + d.len() > N {
+            return Err(StorageError::IoError);
+        }
+        d.copy_from_slice(&self.data[offset..offset + d.len()]);
+        Ok(())
+    }
+}
+
+fn sym_loc() -> Location {
+    Location::new(SegmentIndex::new(kani::any()), MaxCut::new(kani::any()))
+}
+
+/// ⟦BraidResult::push / flush_to_disk / iter⟧ + ⟦BraidIter::next / load_prev_block⟧:
+/// iterating yields exactly the pushed locations in reverse push order — in-memory
+/// entries first (newest), then the spilled block — each exactly once, then `None`.
+/// 3 entries spilled through the real `flush_to_disk`, 2 in memory, contents symbolic.
+#[kani::proof]
+#[kani::unwind(8)]
+fn c02_braid_iter_mem2_disk3() {
+    let mut r: BraidResult<ArrSpill<96>> = BraidResult::new(ArrSpill { data: [0; 96] });
+    let d = [sym_loc(), sym_loc(), sym_loc()];
+    assert!(r.push(d[0]).is_ok() && r.push(d[1]).is_ok() && r.push(d[2]).is_ok());
+    assert!(r.flush_to_disk().is_ok());
+    assert!(r.spill_len == 3 && r.mem.is_empty());
+    let m = [sym_loc(), sym_loc()];
+    assert!(r.push(m[0]).is_ok());
+    assert!(r.push(m[1]).is_ok());
+    let mut it = match r.iter() {
+        Ok(it) => it,
+        Err(_) => panic!("iter failed"),
+    };
+    let expect = [m[1], m[0], d[2], d[1], d[0]];
+    let mut k = 0;
+    while k < 5 {
+        match it.next() {
+            Some(Ok(l)) => assert!(l == expect[k]),
+            _ => panic!("missing entry"),
+        }
+        k += 1;
+    }
+    assert!(it.next().is_none());
+    assert!(it.next().is_none());
+}
+
+/// A failing spill read surfaces as `Some(Err(_))` once and then the iterator is fused
+/// (never a panic, never a bogus location).
+#[kani::proof]
+#[kani::unwind(8)]
+fn c02_braid_iter_read_error_fuses() {
+    // spill backing store too small for the read-back offset => read_at fails
+    let mut r: BraidResult<ArrSpill<16>> = BraidResult::new(ArrSpill { data: [0; 16] });
+    r.spill_len = 2; // pretend two entries were spilled: the 32-byte read cannot be served
+    let m = sym_loc();
+    assert!(r.push(m).is_ok());
+    let mut it = match r.iter() {
+        Ok(it) => it,
+        Err(_) => panic!("iter failed"),
+    };
+    assert!(matches!(it.next(), Some(Ok(l)) if l == m));
+    assert!(matches!(it.next(), Some(Err(_))));
+    assert!(it.next().is_none());
+}
+
+/// 258 pushes through the REAL auto-spill path (BRAID_BLOCK_ENTRIES = 256 untouched),
+/// replayed in exact reverse order. Thorough tier.
+#[kani::proof]
+#[kani::unwind(262)]
+fn c02_braid_iter_auto_spill_258() {
+    const N: usize = BRAID_BLOCK_ENTRIES + 2;
+    let mut r: BraidResult<ArrSpill<8192>> = BraidResult::new(ArrSpill { data: [0; 8192] });
+    let locs: [Location; N] = core::array::from_fn(|_| sym_loc());
+    let mut i = 0;
+    while i < N {
+        assert!(r.push(locs[i]).is_ok());
+        i += 1;
+    }
+    assert!(r.spill_len == BRAID_BLOCK_ENTRIES && r.mem.len() == 2);
+    let mut it = match r.iter() {
+        Ok(it) => it,
+        Err(_) => panic!("iter failed"),
+    };
+    let mut k = 0;
+    while k < N {
+        match it.next() {
+            Some(Ok(l)) => assert!(l == locs[N - 1 - k]),
+            _ => panic!("missing entry"),
+        }
+        k += 1;
+    }
+    assert!(it.next().is_none());
+}
